@@ -67,23 +67,38 @@ func verifC02Handover(strategyKind int) {
 		m := s.vInspectApply(x)
 		verifrt.Assert(m.controllers == 1 && m.meIsController, "C02/exactly-one-controller-after-write")
 		if strategyKind == vStrategyNative {
-			// former owners stay listed (demoted), nobody is dropped
-			// (controller-runtime's upsert replaces an entry with the same group/kind/name, whatever its uid: such an
-			// entry can only name a deleted predecessor of the same name)
-			want := 1
+			// former owners stay listed (demoted), nobody is dropped. (controller-runtime's upsert replaces an entry with
+			// the same group/kind/name as the new controller, whatever its uid: such an entry can only name a deleted
+			// predecessor of the same name, so nothing is demanded for those.)
 			for _, ref := range s.refs {
 				sameName := verifrt.And(verifrt.And(groupOf(ref.APIVersion) == s.me.group(), ref.Kind == s.me.Kind), ref.Name == s.me.Name)
-				if !vConcreteBool(sameName) {
-					want++
+				if vConcreteBool(sameName) {
+					continue
 				}
+				kept := false
+				for _, uid := range m.ownerUIDs {
+					if uid == vForkUID(ref.UID) {
+						kept = true
+					}
+				}
+				verifrt.Assert(kept, "C02/former-owners-kept-as-plain-owners")
 			}
-			verifrt.Assert(m.owners == want, "C02/former-owners-kept-as-plain-owners")
 		}
 		verifrt.Reach("written")
 	}
 	if len(real) == 0 {
 		verifrt.Reach("untouched")
 	}
+}
+
+// vForkUID concretises a symbolic uid.
+func vForkUID(u string) string {
+	for _, c := range []string{"uid-me", "uid-prev1", "uid-prev2", "uid-rp1", "uid-rp2", "uid-other"} {
+		if u == c {
+			return c
+		}
+	}
+	return u
 }
 
 // vConcreteBool forks on a symbolic boolean and returns its value on this path.
